@@ -739,13 +739,14 @@ func (s *ResettableKeystore) ResetCids(ctx context.Context, keysChan <-chan cid.
 	case <-s.done:
 		return ErrClosed
 	case s.resetOps <- resetOp{ctx: ctx, op: opStart, response: opsChan}:
-		select {
-		case err := <-opsChan:
-			if err != nil {
-				return err
-			}
-		case <-ctx.Done():
-			return ctx.Err()
+		// The worker has taken the request and always replies on the unbuffered
+		// opsChan: wait for the reply even if ctx ends meanwhile. Returning early
+		// would leave the worker blocked on its reply forever (wedging every later
+		// operation and Close) and, if the start succeeded, would skip the cleanup.
+		// A cancelled ctx is noticed by Phase A below, after the deferred cleanup
+		// has been registered.
+		if err := <-opsChan; err != nil {
+			return err
 		}
 	}
 
